@@ -28,6 +28,7 @@ const NEAR_MISS: &[&str] = &[
     // plist
     "@", "@ ", "@name", "@name ", "@name  ", "@name\tfoo", "@NAME x", "@ignore x", "@option", "@option foo", "@option preserve ",
     "@cwd", "@comment", "@comment ", " @name x", "@mode \u{a0}", "@bogus",
+    "${PLIST.nls}@pkgdir share/locale/de", "${PLIST.x}bin/foo bar", "${PLIST.", "${PLIST.a}${PLIST.b}@exec true", "${PKGLOCALEDIR}/locale/de x",
     // summary
     "BUILD_DATE", "=", "=x", "FILE_SIZE=", "FILE_SIZE=9223372036854775808", "FILE_SIZE=-9223372036854775809", "SIZE_PKG=1.5",
     "SIZE_PKG= 5", "PKGNAME=", "PKGNAME=-", "PKGNAME=-1", "PKGNAME=a-", "build_date=x", "BUILD_DATE =x",
